@@ -22,9 +22,17 @@ const (
 	kErr
 )
 
+// reprKinds: named types of the current unit that are represented by a plain value (-repr), e.g. a cipher.Stream by its IV
+var reprKinds map[string]kind
+
 func classify(ty types.Type) (kind, int) {
 	if ty == nil {
 		return kBad, 0
+	}
+	if n, ok := ty.(*types.Named); ok && n.Obj().Pkg() != nil && len(reprKinds) > 0 {
+		if k, ok := reprKinds[n.Obj().Pkg().Path()+"."+n.Obj().Name()]; ok {
+			return k, 64
+		}
 	}
 	if n, ok := ty.(*types.Named); ok && n.Obj().Pkg() == nil && n.Obj().Name() == "error" {
 		return kErr, 0
@@ -60,6 +68,9 @@ func classify(ty types.Type) (kind, int) {
 			return kBytes, 0
 		}
 	}
+	if k, ok := classifyRecord(ty); ok {
+		return k, 0
+	}
 	return kBad, 0
 }
 
@@ -84,11 +95,74 @@ func (t *tr) leanType(ty types.Type) string {
 		return t.leanResult(tup)
 	}
 	k, _ := classify(ty)
+	if k == kErr && t.f != nil && t.f.stateful {
+		return "Nat"
+	}
+	if k == kRec || k == kRecList || k == kSet {
+		return leanTypeStatic(ty)
+	}
+	if k == kBad {
+		if fs := structFields(ty); len(fs) > 0 {
+			var ps []string
+			for _, f := range fs {
+				ps = append(ps, t.leanType(f.Type()))
+			}
+			return strings.Join(ps, " × ")
+		}
+	}
 	return leanTypeOfKind(k)
+}
+
+// structFields: the fields of a supported (byte / integer / bool / byte-slice) type of a struct or pointer-to-struct type,
+// in declaration order.  A struct VALUE is the tuple of these; fields of other types (interfaces such as cipher.Block,
+// nested objects) are abstract: they carry no value and can only be the receiver of a call declared -block / -opaque.
+func structFields(ty types.Type) []*types.Var {
+	if ty == nil {
+		return nil
+	}
+	if p, ok := ty.Underlying().(*types.Pointer); ok {
+		ty = p.Elem()
+	}
+	st, ok := ty.Underlying().(*types.Struct)
+	if !ok {
+		return nil
+	}
+	var r []*types.Var
+	for i := 0; i < st.NumFields(); i++ {
+		if k, _ := classify(st.Field(i).Type()); supported(k) {
+			r = append(r, st.Field(i))
+		}
+	}
+	return r
+}
+
+// pathVar: the synthetic variable that stands for the location denoted by a field path (keyed by its printed form).
+func (t *tr) pathVar(e ast.Expr) *types.Var {
+	return t.pathVarNamed(t.src(e), e.Pos(), t.typeOf(e))
+}
+
+func (t *tr) pathVarNamed(src string, pos token.Pos, ty types.Type) *types.Var {
+	src = strings.NewReplacer("(", "", ")", "", "*", "").Replace(src)
+	if v, ok := t.f.pvars[src]; ok {
+		return v
+	}
+	v := types.NewVar(pos, t.u.pkg, pathName(src), ty)
+	t.f.pvars[src] = v
+	return v
 }
 
 // leanResult: (T1, …, Tn) → T1 × … × Tn, a trailing `error` turns the rest into an Option.
 func (t *tr) leanResult(tup *types.Tuple) string {
+	if t.f != nil && t.f.stateful {
+		var ps []string
+		for i := 0; i < tup.Len(); i++ {
+			ps = append(ps, t.leanType(tup.At(i).Type()))
+		}
+		if len(ps) == 0 {
+			return "Unit"
+		}
+		return strings.Join(ps, " × ")
+	}
 	n := tup.Len()
 	opt := false
 	if n > 0 {
@@ -106,7 +180,7 @@ func (t *tr) leanResult(tup *types.Tuple) string {
 		s = "Unit"
 	}
 	if opt {
-		if n > 1 {
+		if n > 1 || strings.Contains(s, " × ") {
 			s = "(" + s + ")"
 		}
 		return "Option " + s
@@ -147,7 +221,17 @@ type fctx struct {
 	name     string
 	binders  []binder
 	env      map[types.Object]string // Go variable -> current Lean expression
-	paths    map[string]string       // printed access path -> Lean parameter name
+	pvars    map[string]*types.Var   // printed field path p.f.g -> synthetic variable standing for that location
+	blockops map[string]opq          // printed callee -> block function name
+	abstract map[string]bool         // printed callee -> constructor of an abstract object
+	objRoots map[types.Object][]*types.Var // local struct objects (x := &T{…}): their fields of a supported type
+	applyops map[string]opq          // printed callee -> length-preserving keyed transformation written into the destination
+	inouts   map[string]opq          // printed callee -> function (window content, args…) ↦ Option (new window content = returned slice)
+	fillops  map[string]opq          // printed callee -> source of fresh bytes written into the destination
+	ctors    map[string]int          // printed callee -> index of the argument that represents the constructed abstract object
+	views    map[types.Object]*view  // live views (see views.go)
+	viewRoot map[types.Object]types.Object
+	viewVars map[types.Object][2]*types.Var
 	count    map[string]int
 	aux      []string
 	alias    map[types.Object][]types.Object
@@ -156,12 +240,26 @@ type fctx struct {
 	nres     int  // number of non-error results
 	errVars  map[types.Object]bool // error variables known to be non-nil here
 	loopN    int
+	loops    []*loopCtx // enclosing general loops (innermost last)
+	stateful     bool                    // see stateful.go
+	stateObjs    []types.Object          // written receiver fields and external objects: first components of the result
+	outParams    []types.Object          // written slice parameters: next components of the result
+	externs      []externOp              // external stateful objects and their callees
+	externRead   map[string]bool         // callee -> read-like (else write-like)
+	externValue  map[string]bool         // callee -> hands out one value
+	typeOverride map[types.Object]string // Lean type of variables whose Go type has no translation (external objects)
+	goSig        *types.Signature
+	resTy    string     // Lean type of the definition's result
 	outs     func() string // value of "falling off the end" / bare return
 }
 
 func newFctx(name string, opaque []opq) *fctx {
-	f := &fctx{name: name, env: map[types.Object]string{}, paths: map[string]string{}, count: map[string]int{},
-		alias: map[types.Object][]types.Object{}, opaque: map[string]opq{}, errVars: map[types.Object]bool{}}
+	f := &fctx{name: name, env: map[types.Object]string{}, pvars: map[string]*types.Var{}, count: map[string]int{},
+		alias: map[types.Object][]types.Object{}, opaque: map[string]opq{}, errVars: map[types.Object]bool{},
+		blockops: map[string]opq{}, abstract: map[string]bool{}, objRoots: map[types.Object][]*types.Var{},
+		applyops: map[string]opq{}, fillops: map[string]opq{}, inouts: map[string]opq{}, ctors: map[string]int{}, views: map[types.Object]*view{},
+		viewRoot: map[types.Object]types.Object{}, viewVars: map[types.Object][2]*types.Var{},
+		externRead: map[string]bool{}, externValue: map[string]bool{}, typeOverride: map[types.Object]string{}}
 	for _, o := range opaque {
 		f.opaque[o.callee] = o
 	}
@@ -255,6 +353,12 @@ func (t *tr) expr(e ast.Expr) string {
 	if lit, ok := t.constLit(e); ok {
 		return lit
 	}
+	switch e.(type) {
+	case *ast.SelectorExpr, *ast.CallExpr:
+		if s, ok := t.recField(e); ok {
+			return s
+		}
+	}
 	switch x := e.(type) {
 	case *ast.ParenExpr:
 		return t.expr(x.X)
@@ -263,8 +367,33 @@ func (t *tr) expr(e ast.Expr) string {
 			return "([] : Bytes)"
 		}
 		obj := t.objOf(x)
+		if t.f.stateful {
+			if code, ok := t.u.errcodes[x.Name]; ok {
+				if k, _ := t.kindOf(x); k == kErr {
+					return fmt.Sprintf("(%d : Nat)", code)
+				}
+			}
+		}
+		if vw, ok := t.f.views[obj]; ok {
+			return fmt.Sprintf("(GoSem.slice %s %s %s)", t.f.env[vw.root], t.f.env[vw.lo], t.f.env[vw.hi])
+		}
 		if v, ok := t.f.env[obj]; ok {
 			return v
+		}
+		if fs, ok := t.f.objRoots[obj]; ok {
+			// a local struct object as a value: the tuple of its fields
+			var vs []string
+			for _, fld := range fs {
+				fv, ok := t.f.env[t.pathVarNamed(x.Name+"."+fld.Name(), x.Pos(), fld.Type())]
+				if !ok {
+					return t.fail(e, "field %s.%s has no value here", x.Name, fld.Name())
+				}
+				vs = append(vs, fv)
+			}
+			if len(vs) == 1 {
+				return vs[0]
+			}
+			return "(" + strings.Join(vs, ", ") + ")"
 		}
 		if v, ok := obj.(*types.Var); ok && v.Parent() == t.u.pkg.Scope() {
 			for _, n := range t.u.vars {
@@ -277,8 +406,13 @@ func (t *tr) expr(e ast.Expr) string {
 		return t.fail(e, "variable %s has no translated value here", x.Name)
 	case *ast.SelectorExpr:
 		if _, ok := t.u.info.Selections[x]; ok && t.isFieldPath(x) {
-			if p, ok := t.f.paths[t.src(x)]; ok {
+			if p, ok := t.f.env[t.pathVar(x)]; ok {
 				return p
+			}
+		}
+			if t.f.stateful {
+			if code, ok := t.u.errcodes[t.src(x)]; ok {
+				return fmt.Sprintf("(%d : Nat)", code)
 			}
 		}
 		return t.fail(e, "selector %s", t.src(x))
@@ -301,6 +435,9 @@ func (t *tr) expr(e ast.Expr) string {
 	case *ast.CallExpr:
 		return t.call(x)
 	case *ast.IndexExpr:
+		if k, _ := t.kindOf(x.X); k == kSet {
+			return fmt.Sprintf("(decide (%s ∈ %s))", t.expr(x.Index), t.expr(x.X))
+		}
 		if k, _ := t.kindOf(x.X); k != kBytes {
 			return t.fail(e, "index into %s", t.typeOf(x.X))
 		}
@@ -323,6 +460,46 @@ func (t *tr) expr(e ast.Expr) string {
 		return fmt.Sprintf("(GoSem.slice %s %s %s)", base, lo, hi)
 	case *ast.CompositeLit:
 		if k, _ := t.kindOf(x); k != kBytes {
+			if st, ok := t.typeOf(x).Underlying().(*types.Struct); ok {
+				// a struct value: the tuple of its fields of a supported type (zero unless given)
+				fields := structFields(t.typeOf(x))
+				given := map[string]ast.Expr{}
+				for i, el := range x.Elts {
+					if kv, ok := el.(*ast.KeyValueExpr); ok {
+						if kid, ok := kv.Key.(*ast.Ident); ok {
+							given[kid.Name] = kv.Value
+						}
+					} else if i < st.NumFields() {
+						given[st.Field(i).Name()] = el
+					}
+				}
+				var vs []string
+				for _, fld := range fields {
+					if ge, ok := given[fld.Name()]; ok {
+						vs = append(vs, t.expr(ge))
+						continue
+					}
+					kd, _ := classify(fld.Type())
+					switch kd {
+					case kBytes:
+						if arr, ok := fld.Type().Underlying().(*types.Array); ok {
+							vs = append(vs, fmt.Sprintf("(GoSem.makeBytes (%d : Int))", arr.Len()))
+						} else {
+							vs = append(vs, "([] : Bytes)")
+						}
+					case kBool:
+						vs = append(vs, "false")
+					default:
+						vs = append(vs, "0")
+					}
+				}
+				if len(vs) == 1 {
+					return vs[0]
+				}
+				if len(vs) > 1 {
+					return "(" + strings.Join(vs, ", ") + ")"
+				}
+			}
 			return t.fail(e, "composite literal of type %s", t.typeOf(x))
 		}
 		var els []string
@@ -384,6 +561,35 @@ func (t *tr) cond(e ast.Expr) string {
 		case token.EQL, token.NEQ, token.LSS, token.GTR, token.LEQ, token.GEQ:
 			ka, _ := t.kindOf(x.X)
 			kb, _ := t.kindOf(x.Y)
+			if x.Op == token.EQL || x.Op == token.NEQ {
+				isNilId := func(e ast.Expr) bool { id, ok := e.(*ast.Ident); return ok && id.Name == "nil" }
+				var other ast.Expr
+				if isNilId(x.Y) {
+					other = x.X
+				} else if isNilId(x.X) {
+					other = x.Y
+				}
+				if other != nil {
+					if s, ok := t.nilTest(other); ok {
+						if x.Op == token.NEQ {
+							return "(¬ " + s + ")"
+						}
+						return s
+					}
+				}
+			}
+			if t.f.stateful && (x.Op == token.EQL || x.Op == token.NEQ) {
+				isNil := func(e ast.Expr) bool { id, ok := e.(*ast.Ident); return ok && id.Name == "nil" }
+				sym := map[token.Token]string{token.EQL: "=", token.NEQ: "≠"}[x.Op]
+				switch {
+				case ka == kErr && isNil(x.Y):
+					return fmt.Sprintf("(%s %s (0 : Nat))", t.expr(x.X), sym)
+				case kb == kErr && isNil(x.X):
+					return fmt.Sprintf("(%s %s (0 : Nat))", t.expr(x.Y), sym)
+				case ka == kErr && kb == kErr:
+					return fmt.Sprintf("(%s %s %s)", t.expr(x.X), sym, t.expr(x.Y))
+				}
+			}
 			if ka != kb || ka == kBad || ka == kErr || (ka == kBytes && true) {
 				// string comparison would be fine semantically, but it is not needed: refuse
 				return t.fail(e, "comparison of %s and %s", t.typeOf(x.X), t.typeOf(x.Y))
@@ -609,6 +815,23 @@ func (t *tr) call(c *ast.CallExpr) string {
 	if tv, ok := info.Types[c.Fun]; ok && tv.IsType() {
 		return t.convert(c, tv.Type)
 	}
+	if idx, ok := t.f.ctors[t.src(c.Fun)]; ok {
+		if idx >= len(c.Args) {
+			return t.fail(c, "-ctor argument index")
+		}
+		return t.expr(c.Args[idx])
+	}
+	if o, ok := t.f.inouts[t.src(c.Fun)]; ok {
+		// in expression position only with a nil destination: nothing of the caller's is written
+		if id, isId := c.Args[0].(*ast.Ident); !isId || id.Name != "nil" {
+			return t.fail(c, "-inout call %s with a destination in expression position", t.src(c.Fun))
+		}
+		args := []string{"([] : Bytes)"}
+		for _, a := range c.Args[1:] {
+			args = append(args, t.expr(a))
+		}
+		return "(" + leanName(o.name) + " " + strings.Join(args, " ") + ")"
+	}
 	if o, ok := t.f.opaque[t.src(c.Fun)]; ok {
 		var args []string
 		for _, a := range c.Args {
@@ -623,11 +846,20 @@ func (t *tr) call(c *ast.CallExpr) string {
 		if _, isB := t.objOf(id).(*types.Builtin); isB {
 			switch id.Name {
 			case "len":
+				if k, _ := t.kindOf(c.Args[0]); k == kRecList || k == kSet {
+					return "(Int.ofNat (" + t.expr(c.Args[0]) + ").length)"
+				}
 				if k, _ := t.kindOf(c.Args[0]); k != kBytes {
 					return t.fail(c, "len of %s", t.typeOf(c.Args[0]))
 				}
+				if vw := t.viewOf(c.Args[0]); vw != nil {
+					return "(" + t.f.env[vw.hi] + " - " + t.f.env[vw.lo] + ")"
+				}
 				return "(GoSem.len " + t.expr(c.Args[0]) + ")"
 			case "make":
+				if k, _ := classify(t.typeOf(c)); k == kSet {
+					return "([] : " + t.leanType(t.typeOf(c)) + ")"
+				}
 				if k, _ := classify(t.typeOf(c)); k != kBytes || len(c.Args) < 2 {
 					return t.fail(c, "make of %s", t.typeOf(c))
 				}
@@ -646,14 +878,32 @@ func (t *tr) call(c *ast.CallExpr) string {
 				}
 				return "(" + base + " ++ [" + strings.Join(els, ", ") + "])"
 			}
-			return t.fail(c, "builtin %s in an expression", id.Name)
+				if (id.Name == "min" || id.Name == "max") && len(c.Args) >= 2 {
+					if k, _ := t.kindOf(c); k == kInt || k == kNat {
+						r := t.expr(c.Args[0])
+						for _, a := range c.Args[1:] {
+							r = fmt.Sprintf("(%s %s %s)", id.Name, r, t.expr(a))
+						}
+						return r
+					}
+				}
+				return t.fail(c, "builtin %s in an expression", id.Name)
 		}
 		if t.u.emitted[id.Name] {
 			return t.callTranslated(t.u, id.Name, nil, c)
 		}
+		if sg := t.calleeSig(c); sg != nil {
+			return t.callSig(id.Name, sg, c)
+		}
 		return t.fail(c, "call of untranslated function %s", id.Name)
 	}
+	if sg := t.calleeSig(c); sg != nil {
+		return t.callSig(c.Fun.(*ast.SelectorExpr).Sel.Name, sg, c)
+	}
 	pkg, recv, name := t.stdCallee(c.Fun)
+	if t.f.stateful && ((pkg == "fmt" && name == "Errorf") || (pkg == "errors" && name == "New")) {
+		return "(1 : Nat)"
+	}
 	var args []string
 	argv := func() []string {
 		if args == nil {
@@ -688,8 +938,18 @@ func (t *tr) call(c *ast.CallExpr) string {
 		if k, _ := classify(t.typeOf(c)); k == kBytes {
 			return argv()[0]
 		}
+	case pkg == "slices" && name == "ContainsFunc" && len(c.Args) == 2:
+		return t.containsFunc(c)
+	case pkg == "slices" && name == "Equal" && len(c.Args) == 2:
+		if k, _ := t.kindOf(c.Args[0]); k == kBytes {
+			return "(decide (" + argv()[0] + " = " + argv()[1] + "))"
+		}
+	case pkg == "bytes" && name == "Equal" && len(c.Args) == 2:
+		return "(decide (" + argv()[0] + " = " + argv()[1] + "))"
 	case pkg == "crypto/subtle" && recv == "":
 		switch name {
+		case "ConstantTimeCompare":
+			return "(GoSem.ctCompare " + strings.Join(argv(), " ") + ")"
 		case "ConstantTimeSelect":
 			return "(GoSem.ctSelect " + strings.Join(argv(), " ") + ")"
 		case "ConstantTimeEq":
@@ -703,6 +963,127 @@ func (t *tr) call(c *ast.CallExpr) string {
 		}
 	}
 	return t.fail(c, "call of %s", t.src(c.Fun))
+}
+
+// callSig: call of an emitted function with implicit binders (passed on by name / current value of the field path)
+func (t *tr) callSig(name string, sg *fsig, c *ast.CallExpr) string {
+	if sg.proc {
+		return t.fail(c, "call of the procedure %s in expression position", name)
+	}
+	var args []string
+	next := 0
+	for i, b := range sg.binders {
+		if sg.implicit[i] {
+			if src, isPath := sg.pathSrc[b.name]; isPath {
+				v, ok := t.f.env[t.pathVarNamed(src, c.Pos(), sg.pathTy[b.name])]
+				if !ok {
+					return t.fail(c, "callee %s needs %s, which has no value here", name, src)
+				}
+				args = append(args, v)
+				continue
+			}
+			if !t.f.hasBinder(b.name) {
+				return t.fail(c, "callee %s needs the parameter %s, which this definition does not have", name, b.name)
+			}
+			args = append(args, b.name)
+			continue
+		}
+		if next >= len(c.Args) {
+			return t.fail(c, "call arity of %s", name)
+		}
+		args = append(args, t.expr(c.Args[next]))
+		next++
+	}
+	if next != len(c.Args) {
+		return t.fail(c, "call arity of %s", name)
+	}
+	if len(args) == 0 {
+		return t.qualified(name)
+	}
+	return "(" + t.qualified(name) + " " + strings.Join(args, " ") + ")"
+}
+
+// qualified: the full name of a definition of the current unit (a Go local of the same name would otherwise shadow it
+// inside `def f.local`, whose body is elaborated in namespace f)
+func (t *tr) qualified(name string) string {
+	return t.ns + "." + t.u.sub + "." + leanName(name)
+}
+
+// procCall: a call of an emitted procedure (value = new content of the ONE slice argument it writes).  Returns the
+// destination window and the Lean call in which the destination argument is the current window content.
+func (t *tr) procCall(name string, sg *fsig, c *ast.CallExpr) (dst types.Object, cur, lo, hi, call string, whole, ok bool) {
+	if len(sg.outIdx) != 1 {
+		t.fail(c, "call of procedure %s, which writes %d slice parameters (exactly one is supported)", name, len(sg.outIdx))
+		return
+	}
+	di := sg.outIdx[0] - sg.nRecv
+	if di < 0 || di >= len(c.Args) {
+		t.fail(c, "procedure call arity of %s", name)
+		return
+	}
+	var okw bool
+	dst, cur, lo, hi, okw = t.window(c.Args[di])
+	if !okw {
+		return
+	}
+	var args []string
+	next := 0
+	for i, b := range sg.binders {
+		if sg.implicit[i] {
+			if src, isPath := sg.pathSrc[b.name]; isPath {
+				v, have := t.f.env[t.pathVarNamed(src, c.Pos(), sg.pathTy[b.name])]
+				if !have {
+					t.fail(c, "callee %s needs %s, which has no value here", name, src)
+					return
+				}
+				args = append(args, v)
+				continue
+			}
+			if !t.f.hasBinder(b.name) {
+				t.fail(c, "callee %s needs the parameter %s, which this definition does not have", name, b.name)
+				return
+			}
+			args = append(args, b.name)
+			continue
+		}
+		if next >= len(c.Args) {
+			t.fail(c, "call arity of %s", name)
+			return
+		}
+		if next == di {
+			a := c.Args[next]
+			if se, isSl := a.(*ast.SliceExpr); t.viewOf(a) == nil && (!isSl || (se.Low == nil && se.High == nil && t.viewOf(se.X) == nil)) {
+				whole = true
+				args = append(args, cur)
+			} else {
+				args = append(args, fmt.Sprintf("(GoSem.slice %s %s %s)", cur, lo, hi))
+			}
+		} else {
+			if rootIs(t, c.Args[next], dst) {
+				t.fail(c, "procedure argument %s overlaps the written argument", t.src(c.Args[next]))
+				return
+			}
+			args = append(args, t.expr(c.Args[next]))
+		}
+		next++
+	}
+	if next != len(c.Args) {
+		t.fail(c, "call arity of %s", name)
+		return
+	}
+	call = "(" + t.qualified(name) + " " + strings.Join(args, " ") + ")"
+	ok = true
+	return
+}
+
+func calleeName(c *ast.CallExpr) string {
+	switch x := c.Fun.(type) {
+	case *ast.Ident:
+		return x.Name
+	case *ast.SelectorExpr:
+		return x.Sel.Name
+	}
+	return ""
 }
 
 func (t *tr) callTranslated(u *unit, name string, _ []string, c *ast.CallExpr) string {
